@@ -13,7 +13,7 @@ use crate::rig::*;
 
 pub const ENTRY: Entry = Entry {
     id: "C15",
-    variants: &["batch", "wrap"],
+    variants: &["batch", "wrap", "nobatch"],
     level: "model_checking",
     rule: "(a) complete closure (stateright BFS) over the 8 orientations with actions rotate(0/90/180/270), flip_horizontal, \
            flip_vertical on the real Orientation API. Geometric oracle computed through the real Display and the reference controller: \
@@ -253,8 +253,8 @@ fn run(ctx: &Ctx) -> Part {
             acc.violation(Violation { prop: ctx.prop.clone(), sig, msg, case: json!({"kind": "c15", "variant": ctx.variant, "leg": "group"}) });
         }
     }
-    // (b) all 2^32 angles
-    let chunks: Vec<i64> = (0..4096).collect();
+    // (b) all 2^32 angles (not repeated on the nobatch variant: the code is feature-independent)
+    let chunks: Vec<i64> = if ctx.batch { (0..4096).collect() } else { Vec::new() };
     let a = chunks
         .par_iter()
         .fold(Acc::new, |mut acc, &c| {
@@ -306,7 +306,9 @@ fn run(ctx: &Ctx) -> Part {
     let bounds = json!({"orientations": 8, "operations": 6, "words": "length <= 4 from every orientation", "angles": "all 2^32"});
     let mut part = Part::new(ctx, acc, bounds, true, t0.elapsed().as_secs_f64());
     part.acc.n_outcomes = 8 + 5;
-    part.require("angles_accepted", 47_721_859);
+    if ctx.batch {
+        part.require("angles_accepted", 47_721_859);
+    }
     part
 }
 
